@@ -1193,8 +1193,8 @@ func hTimeNow(e *Exec, st *State, fv FuncV, a []Value, cc *ssa.CallCommon) Value
 // hHeaderGet: http.Header.Get as a lookup of an (already canonical) key.
 func hHeaderGet(e *Exec, st *State, fv FuncV, a []Value, cc *ssa.CallCommon) Value {
 	m := a[0].(MapV)
-	key := e.cstr(a[1])
-	e.res.noteOnce("model: http.Header.Get is a map lookup of the canonical key " + key)
+	key := textproto.CanonicalMIMEHeaderKey(e.cstr(a[1]))
+	e.res.noteOnce("model: http.Header.Get is a map lookup of the canonicalised key")
 	if m.obj == 0 {
 		return &StrV{}
 	}
